@@ -129,15 +129,28 @@ def task(spec):
     crit_flag = ro.choice([[], ["-size"], ["-length"]])
     crit = {"": "gas", "-size": "size", "-length": "length"}["".join(crit_flag)]
     base = crit_flag + (["-push0"] if ro.random() < 0.3 else []) + (["-no-simplification"] if ro.random() < 0.25 else [])
-    p0 = "-push0" not in base          # the flag *disables* PUSH0
     term = ro.choice([[], [], ["-term-encoding", "int"], ["-term-encoding", "stack_vars"], ["-term-encoding", "uninterpreted_int"]])
     base = base + ["-solver", "z3"] + term
     variants = [[]]
     for _ in range(2 if spec["tier"] == "quick" else 3):
-        variants.append(sorted(set(f for f in NEUTRAL if ro.random() < 0.4) | ({"-memory-encoding", }.__class__() )))
+        variants.append(sorted(set(f for f in NEUTRAL if ro.random() < 0.4)))
     blocks = [AJ.items_to_text(gen_small(rw), 0) for _ in range(5)]
-    peers = [{"kind": "optimal", "rlimit": 40000000}, {"kind": "any_model", "seed": 3}, {"kind": "skewed", "seed": 5, "mode": "maximise"}]
     summ = {"evals": 0, "keys": [], "probes": {}, "faults": {}, "sim_s": 0.0, "samples": [], "harness": 0, "inconclusive": 0}
+    viols = judge(base, variants, blocks, crit, summ)
+    seen = set()
+    out = []
+    for v in viols:
+        if tuple(v["class"]) not in seen:
+            seen.add(tuple(v["class"]))
+            out.append(v)
+    summ["violations"] = out[:3]
+    return summ
+
+
+def judge(base, variants, blocks, crit, summ):
+    """All C07 clauses for a set of blocks under `base` + each variant (explicit data: also the replay entry point)."""
+    p0 = "-push0" not in base          # the flag *disables* PUSH0
+    peers = [{"kind": "optimal", "rlimit": 40000000}, {"kind": "any_model", "seed": 3}, {"kind": "skewed", "seed": 5, "mode": "maximise"}]
     viols = []
     per_instance = {}
     for vi, var in enumerate(variants):
@@ -155,7 +168,7 @@ def task(spec):
             if inst["r6"] is None:
                 inst["r6"] = R6.search(sfs, sfs["init_progr_len"], sfs["max_sk_sz"], push0=p0)
             r6 = inst["r6"]
-            rp = {"argv": base + var, "block": rec["block_text"], "key": rec["key"], "crit": crit}
+            rp = {"base": base, "variants": variants, "block": rec["block_text"], "crit": crit}
             res0 = rec["results"][0]
             summ["evals"] += 1
             summ["keys"].append(digest([sfs["user_instrs"], sfs["tgt_ws"], sfs["src_ws"], base + var]))
@@ -222,47 +235,14 @@ def task(spec):
         vals = set(c for c, _ in inst["opt"].values())
         if len(vals) > 1:
             viols.append({"class": ["b:cross-configuration", crit], "detail": "%s: optimum cost differs across option sets: %s" % (
-                key[1], {k: v[0] for k, v in inst["opt"].items()}), "replay": {"argv": base, "block": blocks[key[0]], "key": key[1], "crit": crit,
-                                                                          "variants": variants}})
+                key[1], {k: v[0] for k, v in inst["opt"].items()}), "replay": {"base": base, "variants": variants, "block": blocks[key[0]], "crit": crit}})
         if inst["r6"] and inst["r6"]["best"]["length"] is not None and not summ["samples"]:
             summ["samples"].append({"flags": base, "variants": variants, "block": blocks[key[0]], "r6_best": inst["r6"]["best"],
                                     "optima": {k: v[0] for k, v in inst["opt"].items()}})
-    seen = set()
-    out = []
-    for v in viols:
-        if tuple(v["class"]) not in seen:
-            seen.add(tuple(v["class"]))
-            out.append(v)
-    summ["violations"] = out[:3]
-    return summ
+    return viols
 
 
 def replay(rp):
-    variants = rp.get("variants") or [[]]
-    costs = {}
-    for var in variants:
-        op = {"argv": rp["argv"] + [f for f in var if f not in rp["argv"]], "blocks": [rp["block"]], "peers": [{"kind": "optimal", "rlimit": 40000000}],
-              "max_len": 7, "greedy": False}
-        st, recs = procs.run_sut(pipe.run_solve, op, cpu_s=400)
-        if st != "ok":
-            continue
-        for rec in recs:
-            if "exc" in rec or rec["key"].split("_")[-1] != rp["key"].split("_")[-1]:
-                continue
-            sfs = rec["sfs"]
-            p0 = "-push0" not in rp["argv"]
-            r6 = R6.search(sfs, sfs["init_progr_len"], sfs["max_sk_sz"], push0=p0)
-            r = rec["results"][0]
-            if r["exc"] is not None and r6["best"]["length"] is not None:
-                return {"class": ["a:encoder-raises-with-witness", r["exc"].split(":")[0]], "detail": r["exc"], "replay": rp}
-            if r["outcome"] == "unsat" and r6["best"]["length"] is not None:
-                return {"class": ["a:unsat-with-witness", rp["crit"]], "detail": "unsat with witness %s" % r6["witness"], "replay": rp}
-            if r["outcome"] == "optimal" and R2.realizes(sfs, r["ids"]).ok:
-                c = seq_cost(sfs, r["ids"], rp["crit"], push0=p0)
-                costs["+".join(var)] = c
-                if r6["exhausted"] and r6["best"][rp["crit"]] is not None and c != r6["best"][rp["crit"]]:
-                    return {"class": ["b:optimum-differs-from-reference", rp["crit"]], "detail": "optimum %d vs reference %d" % (c, r6["best"][rp["crit"]]),
-                            "replay": rp}
-    if len(set(costs.values())) > 1:
-        return {"class": ["b:cross-configuration", rp["crit"]], "detail": str(costs), "replay": rp}
-    return None
+    summ = {"evals": 0, "keys": [], "probes": {}, "faults": {}, "sim_s": 0.0, "samples": [], "harness": 0, "inconclusive": 0}
+    viols = judge(rp["base"], rp["variants"], [rp["block"]], rp["crit"], summ)
+    return viols[0] if viols else None
